@@ -178,6 +178,12 @@ func TestPerValueShaping(t *testing.T) {
 			now += uint64(rapid.SampledFrom([]int{0, 0, 1, 10, 100, 400, 999, 1000, 1001, 2500, 3001, 7000}).Draw(t, "dt"))
 			vi := rapid.IntRange(-2, nvals-1).Draw(t, "v")
 			reqs = append(reqs, req{t: now, vi: vi, batch: int64(rapid.IntRange(1, 3).Draw(t, "batch"))})
+			if vi >= 0 && rapid.IntRange(0, 5).Draw(t, "burstNow") == 0 { // a burst for one value at one instant (drains whatever has accumulated)
+				k := rapid.IntRange(2, 14).Draw(t, "burstLen")
+				for j := 0; j < k && len(reqs) < 80; j++ {
+					reqs = append(reqs, req{t: now, vi: vi, batch: 1})
+				}
+			}
 		}
 		full := run(t, rules, selector, reqs, t0)
 		for i, q := range reqs {
